@@ -189,8 +189,11 @@ def handleFacets (j : Json) : Except String Json := do
   let out ← (suffixes chain).mapM fun sc => do
     match sc with
     | [] => throw "empty"
-    | S :: C =>
-      let errs := sortStrs (dedup ((checkStep C S).map E.code))
+    | S0 :: C0 =>
+      -- the base chain as built (refused enumeration values are not stored); the step as declared
+      let C := storedChain C0
+      let errs := sortStrs (dedup ((checkStep C S0).map E.code))
+      let S := stored C S0
       let lex ← texts.mapM fun (cs, table) => do
         let tbl ← table.mapM fun e => do
           let q ← e.getArr?
